@@ -33,12 +33,12 @@ func init() {
 }
 
 func startsMessage(name string) bool {
-	n := strings.TrimPrefix(name, "invalid:")
+	n := strings.TrimPrefix(strings.TrimPrefix(name, "invalid:"), "epilogue:")
 	return strings.HasPrefix(n, "NextWriter") || strings.HasPrefix(n, "WriteMessage") || strings.HasPrefix(n, "WriteJSON")
 }
 
 func usesNoPooledBuffer(name string) bool {
-	n := strings.TrimPrefix(name, "invalid:")
+	n := strings.TrimPrefix(strings.TrimPrefix(name, "invalid:"), "epilogue:")
 	return strings.HasPrefix(n, "WriteControl") || strings.HasPrefix(n, "WritePreparedMessage") || strings.HasPrefix(n, "NewPreparedMessage")
 }
 
@@ -86,7 +86,7 @@ func c20Oracle(x *explore.Ctx, e *WEnv, fs *faultState, key func(string) string)
 	}
 	open := false
 	for ci, ac := range e.Calls {
-		n := strings.TrimPrefix(ac.Name, "invalid:")
+		n := strings.TrimPrefix(strings.TrimPrefix(ac.Name, "invalid:"), "epilogue:")
 		switch {
 		case usesNoPooledBuffer(n):
 		case strings.HasPrefix(n, "NextWriter("):
